@@ -265,7 +265,13 @@ def model_expr(c, mode):
     return 'run %s %s (mgr0 %s %s %s)' % (mode_c(mode), ops_coq(c), z(c['nm']), z(c['nv']), z(c['timeout']))
 
 
-XX
+def oracle_expr(c, mode, obs):
+    if c['kind'] == 'flood':
+        if isinstance(obs, int) or obs[0] != 'tuple':
+            return 'false'
+        return 'holds_flood %s %s %s' % (z(c['nm']), z(c['nv']), to_coq(obs))
+    if isinstance(obs, int) or obs[0] != 'list':
+        return 'false'
     return 'holds %s %s %s %s %s' % (z(c['nm']), z(c['nv']), z(c['timeout']), ops_coq(c), to_coq(obs))
 
 
